@@ -282,7 +282,15 @@ def array_contract_path(
     )
 
     if cache and can_hash_optimize(optimize.__class__):
-        key = hash_contraction(inputs, output, size_dict, optimize)
+        try:
+            key = hash_contraction(inputs, output, size_dict, optimize)
+        except TypeError:
+            # unhashable specification, e.g. a path given as nested lists
+            key = None
+    else:
+        key = None
+
+    if key is not None:
         try:
             path = _PATH_CACHE[key]
         except KeyError:
